@@ -98,6 +98,8 @@ def _gen_message(rng, tier):
     else:
         n = int(rng.randint(1, 16) * cap * rng.uniform(0.05, 1.0))
     n = max(1, n)
+    if rng.random() < 0.15:
+        n = rng.randint(1, 24)     # tiny messages: the single-symbol shortcuts and the never-Micro clause live here
     if flavour == 'int':
         content = int(gen.text(rng, 'numeric', min(n, 400)).lstrip('0') or '7')
         if rng.random() < 0.15:
@@ -122,7 +124,7 @@ def _gen_message(rng, tier):
     if route in ('version', 'both'):
         kw['version'] = version if rng.random() < 0.9 else str(version)
     if route in ('symbol_count', 'both'):
-        kw['symbol_count'] = rng.randint(1, 16)
+        kw['symbol_count'] = rng.randint(1, 16) if rng.random() < 0.8 else rng.choice((1, 1, 2))
     if route == 'bad':
         kw.update(rng.choice(({'symbol_count': 0}, {'symbol_count': 17}, {'version': 'M3'}, {'version': 41},
                               {'symbol_count': -1}, {'version': 'm1', 'symbol_count': 2})))
